@@ -266,6 +266,8 @@ func init() {
 				stats["cfg_rejected"]++
 				continue
 			}
+			// the control-flow graph liveness runs on is itself judged against the opcode-derived specification (C09's acceptor)
+			o.emit("accept-cfg "+encNodes(fn)+" => "+encGraph(fn), "ok")
 			req := encLiveProg(fn)
 			err, _ := safely(func() error { return pass.Liveness(fn) })
 			resp := ""
